@@ -11,7 +11,7 @@ func init() {
 	register(&PropDef{
 		ID:    "C13",
 		Pkgs:  []string{tr},
-		Claim: "Decides the structural part: the client's stream-quota state (quota, waiter count, limit, wake-up channel) is touched only inside closures that are handed to the control buffer's locked executor (or the constructor); a stream id is assigned only after the quota was tested positive and decremented, with the transport mutex held, the transport not draining/closed, and the id taken from the odd, +2 counter after which the counter advances; the quota is changed only by -1 (admission), +1 (stream end, once per stream) and +(new limit - old limit) without clamping; every closure that can raise the quota wakes waiters.",
+		Claim: "Decides the structural part: the client's stream-quota state (quota, waiter count, limit, wake-up channel) is touched only inside closures that are handed to the control buffer's locked executor (or the constructor); a stream id is assigned only after the quota was tested positive and decremented, with the transport mutex held, the transport not draining/closed, and the id taken from the odd, +2 counter after which the counter advances; the quota is changed only by -1 (admission), +1 (stream end, once per stream) and +(new limit - old limit) without clamping; every closure that can raise the quota wakes waiters. handleSettings ignores only an ACK, applies the frame's MAX_CONCURRENT_STREAMS value, substitutes 'unlimited' only for a first SETTINGS frame without one, and schedules the quota update whenever a limit is present.",
 		NotDecided:  []string{"the count of open streams over all histories of SETTINGS changes and stream ends (ledger arithmetic)", "sufficiency of the one-slot wake-up channel under all interleavings"},
 		Assumptions: []string{"controlBuffer.executeAndPut runs its callback under the control buffer mutex (decided under C16)"},
 		Technique:   "static analysis: closure-confinement (who-may-access through closures passed to the locked executor), dominating guards on go/ssa branch facts, must-lockset, stored-value shape check, once-only guard",
